@@ -121,6 +121,18 @@ func (h *HttpServer) SetCompressionLevel(level int) error {
 	return nil
 }
 
+// decodedBodyTooLargeError reports that a body decompressed to more than the
+// cap handed to decompressBounded. Which cap that was — the advertised
+// max_request_bytes or a private decompression bound — is the caller's
+// knowledge, so the caller picks the status (see readHTTPBody).
+type decodedBodyTooLargeError struct {
+	Limit int64
+}
+
+func (e *decodedBodyTooLargeError) Error() string {
+	return fmt.Sprintf("Decompressed body exceeds maximum size of %d bytes", e.Limit)
+}
+
 // decompressBounded decompresses data with the named coding ("zstd" or
 // "gzip"), enforcing maxOutput as a decompressed-size cap when > 0. The
 // gzip ISIZE footer carries the size mod 2^32 — never trust it for a bomb
@@ -134,7 +146,7 @@ func decompressBounded(encoding string, data []byte, maxOutput int64) ([]byte, e
 			var header zstd.Header
 			if err := header.Decode(data); err == nil && header.HasFCS &&
 				header.FrameContentSize > uint64(maxOutput) {
-				return nil, &requestBodyTooLargeError{Limit: maxOutput}
+				return nil, &decodedBodyTooLargeError{Limit: maxOutput}
 			}
 		}
 		opts := []zstd.DOption{}
@@ -169,7 +181,7 @@ func decompressBounded(encoding string, data []byte, maxOutput int64) ([]byte, e
 		return nil, fmt.Errorf("%s decompression: %w", encoding, err)
 	}
 	if maxOutput > 0 && int64(len(out)) > maxOutput {
-		return nil, &requestBodyTooLargeError{Limit: maxOutput}
+		return nil, &decodedBodyTooLargeError{Limit: maxOutput}
 	}
 	return out, nil
 }
